@@ -43,6 +43,8 @@ def pool(tier):
          {'MSA': 5000}),
         ('bundle', D({'h': 1000., 'n': 40, 'pattern': 'rampup'}, {'h': 1210., 'n': 40, 'pattern': 'rampup'}), {}),
         ('all-vv-high', rows([['a', 0.0 - 15. * i, 20000., -1] for i in range(5)]), {'MSA': 10000}),
+        # only higher hits, all cropped: the chunk is left without a single row
+        ('all-cropped', rows([['a', -15., 5000., 2], ['a', 0., 5200., 2]]), {'MSA': 1500}),
     ]
     wn = scenes.witness_names()
     for name in (wn[::6] if tier == 'quick' else wn):
